@@ -176,6 +176,9 @@ func CheckAgainst(res model.Res, o Outcome) string {
 	if o.Panic != "" {
 		return "library panicked: " + firstLine(o.Panic)
 	}
+	if o.Info.HugeNumber != "" {
+		return "" // the result contains a number the harness cannot hold exactly: not judged
+	}
 	if res.Err != 0 {
 		if !o.Failed {
 			return fmt.Sprintf("expected error %v, got %s", res.Err.Names(), o)
